@@ -9,6 +9,32 @@ use vh::*;
 
 struct Ctx { out: Out, rng: Rng }
 
+/// harness-side statement of RFC 9580 5.2.4 (direct predicate; the Coq transcription is the model)
+fn rfc_digest(v: u8, typ: u8, pka: u8, hash: HashAlgorithm, area: &[u8], salt: &[u8], subject: &[u8]) -> Option<Vec<u8>> {
+    use digest::Digest;
+    let mut pre = Vec::new();
+    if v == 6 { pre.extend_from_slice(salt); }
+    pre.extend_from_slice(subject);
+    let mut fields = vec![v, typ, pka, u8::from(hash)];
+    if v == 6 { fields.extend((area.len() as u32).to_be_bytes()); } else { fields.extend((area.len() as u16).to_be_bytes()); }
+    fields.extend_from_slice(area);
+    pre.extend_from_slice(&fields);
+    pre.extend([v, 0xff]); pre.extend((fields.len() as u32).to_be_bytes());
+    Some(match hash {
+        HashAlgorithm::Sha256 => sha2::Sha256::digest(&pre).to_vec(), HashAlgorithm::Sha384 => sha2::Sha384::digest(&pre).to_vec(),
+        HashAlgorithm::Sha512 => sha2::Sha512::digest(&pre).to_vec(), HashAlgorithm::Sha224 => sha2::Sha224::digest(&pre).to_vec(),
+        HashAlgorithm::Sha3_256 => sha3::Sha3_256::digest(&pre).to_vec(), HashAlgorithm::Sha3_512 => sha3::Sha3_512::digest(&pre).to_vec(),
+        _ => return None,
+    })
+}
+
+fn key_frame(version: KeyVersion, body: &[u8]) -> Vec<u8> {
+    let mut v = Vec::new();
+    if version == KeyVersion::V6 { v.push(0x9b); v.extend((body.len() as u32).to_be_bytes()); } else { v.push(0x99); v.extend((body.len() as u16).to_be_bytes()); }
+    v.extend_from_slice(body); v
+}
+fn canon_text(d: &[u8]) -> Vec<u8> { let mut o = Vec::new(); let mut p = false; for &b in d { if b == 10 && !p { o.push(13); } o.push(b); p = b == 13; } o }
+
 fn kv(v: KeyVersion) -> u8 { match v { KeyVersion::V6 => 6, KeyVersion::V4 => 4, KeyVersion::V3 => 3, KeyVersion::V2 => 2, _ => 0 } }
 fn hash_id(h: HashAlgorithm) -> u8 { h.into() }
 
@@ -30,8 +56,29 @@ impl Ctx {
         v
     }
 
+    /// hashed area of exactly `target` octets (one big notation subpacket plus a creation time)
+    fn hashed_area_sized(&mut self, target: usize) -> Vec<Subpacket> {
+        let mk = |n: usize| -> Vec<Subpacket> {
+            let mut v = vec![Subpacket::regular(SubpacketData::SignatureCreationTime(Timestamp::from_secs(1_600_000_000))).unwrap()];
+            // a notation value has a two-octet length: split large sizes over two notations
+            let (a, b) = if n > 60000 { (60000, n - 60000) } else { (n, 0) };
+            v.push(Subpacket::regular(SubpacketData::Notation(Notation { readable: false, name: "size@example.org".into(), value: vec![0x5a; a].into() })).unwrap());
+            if n > 60000 { v.push(Subpacket::regular(SubpacketData::Notation(Notation { readable: false, name: "more@example.org".into(), value: vec![0x5b; b].into() })).unwrap()); }
+            v
+        };
+        let size = |v: &Vec<Subpacket>| -> usize { let mut a = Vec::new(); for sp in v { if sp.to_writer(&mut a).is_err() { return 0; } } a.len() };
+        let mut n = target.saturating_sub(40);
+        for _ in 0..6 {
+            let s = size(&mk(n));
+            if s == target { break; }
+            n = (n as i64 + target as i64 - s as i64).max(0) as usize;
+        }
+        mk(n)
+    }
+
     fn config(&mut self, rk: &RecKey, typ: SignatureType, hash: HashAlgorithm, variant: u64) -> Option<(SignatureConfig, Vec<u8>, Vec<u8>)> {
-        let hashed = self.hashed_area(rk, variant);
+        // variants >= 1_000_000 ask for an exact hashed-area size
+        let hashed = if variant >= 1_000_000 { self.hashed_area_sized((variant - 1_000_000) as usize) } else { self.hashed_area(rk, variant) };
         let mut area = Vec::new();
         for sp in &hashed { sp.to_writer(&mut area).ok()?; }
         let mut cfg = match rk.version() {
@@ -45,6 +92,10 @@ impl Ctx {
 
     #[allow(clippy::too_many_arguments)]
     fn emit(&mut self, rk: &RecKey, typ: u8, hash: HashAlgorithm, area: &[u8], salt: &[u8], subject: String, d_sign: Option<Vec<u8>>, d_verify: Option<Vec<u8>>, verified: bool, cls: &str) {
+        self.emit2(rk, typ, hash, area, salt, subject, None, d_sign, d_verify, verified, cls)
+    }
+    #[allow(clippy::too_many_arguments)]
+    fn emit2(&mut self, rk: &RecKey, typ: u8, hash: HashAlgorithm, area: &[u8], salt: &[u8], subject: String, subject_octets: Option<Vec<u8>>, d_sign: Option<Vec<u8>>, d_verify: Option<Vec<u8>>, verified: bool, cls: &str) {
         let v = kv(rk.version());
         let pka: u8 = rk.algorithm().into();
         let imp = match (&d_sign, &d_verify) {
@@ -52,7 +103,10 @@ impl Ctx {
             (Some(a), None) => format!("{} - {}", hx(a), verified as u8),
             _ => "ERR".to_string(),
         };
-        let pred = d_sign.is_some() && d_sign == d_verify && verified;
+        let mut pred = d_sign.is_some() && d_sign == d_verify && verified;
+        if let Some(so) = subject_octets {
+            if let Some(want) = rfc_digest(v, typ, pka, hash, area, salt, &so) { pred = pred && d_sign.as_ref() == Some(&want); }
+        }
         self.out.case("preimage", &[v.to_string(), typ.to_string(), pka.to_string(), hash_id(hash).to_string(), hx(area), hx(salt), subject], &[], &imp, Some(pred), cls);
     }
 
@@ -67,7 +121,43 @@ impl Ctx {
                 Ok(Ok(sig)) => { let ds = rk.last(); rk.clear(); let ok = sig.verify(rk, &doc[..]).is_ok(); (ds, rk.last(), ok) }
                 _ => (None, None, false),
             };
-            self.emit(rk, typ.into(), hash, &area, &salt, format!("doc:{tm}:{}", hx(&doc)), ds, dv, ok, "document");
+            let so = if tm == 1 { canon_text(&doc) } else { doc.clone() };
+            self.emit2(rk, typ.into(), hash, &area, &salt, format!("doc:{tm}:{}", hx(&doc)), Some(so.clone()), ds.clone(), dv, ok, "document");
+            // the same signature inside a message: prefix form (signature packet, then literal data) ...
+            if let Some((cfg2, area2, salt2)) = self.config(rk, typ, hash, variant) {
+                use pgp::packet::PacketTrait;
+                rk.clear();
+                if let Ok(Ok(sig)) = guarded(|| cfg2.sign(rk, &Password::empty(), &doc[..])) {
+                    let ds2 = rk.last();
+                    let lit = pgp::packet::LiteralData::from_bytes("", doc.clone().into()).unwrap();
+                    let mut m = Vec::new();
+                    sig.to_writer_with_header(&mut m).unwrap();
+                    lit.to_writer_with_header(&mut m).unwrap();
+                    rk.clear();
+                    let okm = guarded(|| { use std::io::Read; let mut msg = pgp::composed::Message::from_bytes(&m[..]).ok()?; let mut o = Vec::new(); msg.read_to_end(&mut o).ok()?; Some(msg.verify(rk).is_ok()) }).ok().flatten().unwrap_or(false);
+                    let dvm = rk.last();
+                    self.emit2(rk, typ.into(), hash, &area2, &salt2, format!("doc:{tm}:{}", hx(&doc)), Some(so.clone()), ds2, dvm, okm, "document-prefix-message");
+                }
+            }
+            // ... and one-pass form through the builder (signing digest seen by the recording key, verified by the reader)
+            {
+                use pgp::composed::MessageBuilder;
+                rk.clear();
+                let r = guarded(|| -> Option<(Vec<u8>, Option<Vec<u8>>)> {
+                    let mut b = MessageBuilder::from_bytes("", doc.clone());
+                    if tm == 1 { b.sign_text(); } else { b.sign_binary(); }
+                    b.sign(rk, Password::empty(), hash);
+                    let bytes = b.to_vec(Rng::new(21)).ok()?;
+                    Some((bytes, rk.last()))
+                });
+                if let Ok(Some((bytes, dsb))) = r {
+                    rk.clear();
+                    let okm = guarded(|| { use std::io::Read; let mut msg = pgp::composed::Message::from_bytes(&bytes[..]).ok()?; let mut o = Vec::new(); msg.read_to_end(&mut o).ok()?; Some(msg.verify(rk).is_ok()) }).ok().flatten().unwrap_or(false);
+                    let dvb = rk.last();
+                    let imp = format!("{} {}", dsb.as_ref().map(|d| hx(d)).unwrap_or("-".into()), okm as u8);
+                    self.out.case("", &[], &["onepass".into(), tm.to_string(), hx(&doc)], &imp, Some(dsb.is_some() && dsb == dvb && okm), "document-onepass-message");
+                }
+            }
         }
     }
 
@@ -138,7 +228,7 @@ impl Ctx {
                 Ok(Ok(sig)) => { let ds = rk.last(); rk.clear(); let ok = sig.verify_key(rk).is_ok(); (ds, rk.last(), ok) }
                 _ => (None, None, false),
             };
-            self.emit(rk, typ.into(), hash, &area, &salt, format!("key:{}:{}", kv(pubkey.version()), hx(&pb)), ds, dv, ok, "direct-key");
+            self.emit2(rk, typ.into(), hash, &area, &salt, format!("key:{}:{}", kv(pubkey.version()), hx(&pb)), Some(key_frame(pubkey.version(), &pb)), ds, dv, ok, "direct-key");
         }
     }
 
@@ -196,6 +286,16 @@ fn main() {
             cx.certifications(&rk, &pubkey, hash, variant + 3);
             cx.direct(&rk, &pubkey, hash, variant + 3);
             cx.documents(&rk, hash, variant + 3);
+        }
+    }
+    // hashed areas at the edges of the v4 two-octet length and of the trailer's count (4 + 2 + area)
+    for size in [250u64, 65529, 65530, 65531, 65535, 65536, 70000] {
+        for key in [&k4, &k6] {
+            if size > 65535 && key.version() == KeyVersion::V4 { continue; }
+            let pubkey = key.primary_key.public_key().clone();
+            let rk = RecKey::new(pubkey.clone());
+            cx.documents(&rk, HashAlgorithm::Sha256, 1_000_000 + size);
+            cx.direct(&rk, &pubkey, HashAlgorithm::Sha512, 1_000_000 + size);
         }
     }
     let rk = RecKey::new(k4.primary_key.public_key().clone());
